@@ -115,7 +115,7 @@ class CellResolutionAttribute:
 
   qn = f"{{{ns.TTP}}}cellResolution"
 
-  _CELL_RESOLUTION_RE = re.compile(r"(\d+) (\d+)")
+  _CELL_RESOLUTION_RE = re.compile(r"(\d+) (\d+)", re.ASCII)
 
   @staticmethod
   def extract(ttml_element) -> model.CellResolutionType:
@@ -124,7 +124,7 @@ class CellResolutionAttribute:
 
     if cr is not None:
 
-      m = CellResolutionAttribute._CELL_RESOLUTION_RE.match(cr)
+      m = CellResolutionAttribute._CELL_RESOLUTION_RE.fullmatch(cr)
 
       if m is not None:
 
@@ -230,7 +230,7 @@ class TickRateAttribute:
 
   qn = f"{{{ns.TTP}}}tickRate"
 
-  _TICK_RATE_RE = re.compile(r"(\d+)")
+  _TICK_RATE_RE = re.compile(r"(\d+)", re.ASCII)
 
   @staticmethod
   def extract(ttml_element) -> int:
@@ -239,7 +239,7 @@ class TickRateAttribute:
 
     if tr is not None:
 
-      m = TickRateAttribute._TICK_RATE_RE.match(tr)
+      m = TickRateAttribute._TICK_RATE_RE.fullmatch(tr)
 
       if m is not None:
 
@@ -257,7 +257,7 @@ class AspectRatioAttribute:
 
   qn = f"{{{ns.ITTP}}}aspectRatio"
 
-  _re = re.compile(r"(\d+) (\d+)")
+  _re = re.compile(r"(\d+) (\d+)", re.ASCII)
 
   @staticmethod
   def extract(ttml_element) -> typing.Optional[Fraction]:
@@ -267,7 +267,7 @@ class AspectRatioAttribute:
     if ar_raw is None:
       return None
 
-    m = AspectRatioAttribute._re.match(ar_raw)
+    m = AspectRatioAttribute._re.fullmatch(ar_raw)
 
     if m is None:
       LOGGER.error("ittp:aspectRatio invalid syntax")
@@ -289,7 +289,7 @@ class DisplayAspectRatioAttribute:
 
   qn = f"{{{ns.TTP}}}displayAspectRatio"
 
-  _re = re.compile(r"(\d+) (\d+)")
+  _re = re.compile(r"(\d+) (\d+)", re.ASCII)
 
   @staticmethod
   def extract(ttml_element) -> typing.Optional[Fraction]:
@@ -299,7 +299,7 @@ class DisplayAspectRatioAttribute:
     if ar_raw is None:
       return None
 
-    m = DisplayAspectRatioAttribute._re.match(ar_raw)
+    m = DisplayAspectRatioAttribute._re.fullmatch(ar_raw)
 
     if m is None:
       LOGGER.error("ttp:displayAspectRatio invalid syntax")
@@ -330,9 +330,9 @@ class FrameRateAttribute:
 
   frame_rate_multiplier_qn = f"{{{ns.TTP}}}frameRateMultiplier"
 
-  _FRAME_RATE_RE = re.compile(r"(\d+)")
+  _FRAME_RATE_RE = re.compile(r"(\d+)", re.ASCII)
 
-  _FRAME_RATE_MULT_RE = re.compile(r"(\d+) (\d+)")
+  _FRAME_RATE_MULT_RE = re.compile(r"(\d+) (\d+)", re.ASCII)
 
   @staticmethod
   def extract(ttml_element) -> Fraction:
@@ -345,7 +345,7 @@ class FrameRateAttribute:
 
     if fr_raw is not None:
 
-      m = FrameRateAttribute._FRAME_RATE_RE.match(fr_raw)
+      m = FrameRateAttribute._FRAME_RATE_RE.fullmatch(fr_raw)
 
       if m is not None:
 
@@ -363,7 +363,7 @@ class FrameRateAttribute:
 
     if frm_raw is not None:
 
-      m = FrameRateAttribute._FRAME_RATE_MULT_RE.match(frm_raw)
+      m = FrameRateAttribute._FRAME_RATE_MULT_RE.fullmatch(frm_raw)
 
       if m is not None:
 
